@@ -29,7 +29,7 @@ def setup_sexp(spec):
 def modelable(spec):
     """configurations the Float driver reproduces: fixed configuration, no randomising clip=False,
     a vector cost only with its reducer"""
-    if any(op[0] not in ("step",) for op in spec["ops"]):
+    if any(op[0] not in ("step",) for op in spec["ops"]) or spec.get("pushing"):
         return False
     if spec.get("ranges") and spec["ranges"][3] is False:
         return False
@@ -38,13 +38,16 @@ def modelable(spec):
     return True
 
 
-def performed_snaps(rec):
-    """snapshots of the step ops in which an iteration really ran"""
+def performed_snaps(rec, until_stop=False):
+    """snapshots of the step ops in which an iteration really ran (optionally only up to the first stop:
+    after a stop the objective is re-decorated, which the algorithm models do not cover - see F20)"""
     out = []
     for sn in rec.snaps:
         if sn["op"][0] == "step" and sn["pre"] is not None:
             if sn["n_cb"] > sn["pre"]["n_cb"] or sn["n_cost_calls"] > sn["pre"]["n_cost_calls"]:
                 out.append(sn)
+        if until_stop and sn["ret"] is not None:
+            break
     return out
 
 
@@ -77,7 +80,7 @@ def fvec(sx):
 def de_request(spec, rec):
     if spec["solver"] not in ("DE", "DE2") or not modelable(spec):
         return None, None
-    snaps = performed_snaps(rec)
+    snaps = performed_snaps(rec, until_stop=True)
     if not snaps:
         return None, None
     npop = len(rec.init_population)
@@ -88,6 +91,7 @@ def de_request(spec, rec):
     groups = []
     for g in sorted(gens):
         groups.append([t for _, t in gens[g]])
+    groups = groups[:max(0, len(snaps) - 1)]
     if len(groups) != len(snaps) - 1 or any(len(g) != npop for g in groups):
         return None, None      # a stop happened mid-way in an unusual manner: covered by ctl
     line = "C01 de %s (pop %s) (trials (%s)) (two %s)" % (setup_sexp(spec), fll(rec.init_population),
@@ -124,7 +128,7 @@ def de_request(spec, rec):
 def nm_request(spec, rec):
     if spec["solver"] != "NM" or not modelable(spec) or spec["dim"] > 15:
         return None, None
-    snaps = performed_snaps(rec)
+    snaps = performed_snaps(rec, until_stop=True)
     if not snaps:
         return None, None
     # an in-place constraints function rewrites the candidate vertex through the numpy view wrap_nested passes
@@ -219,16 +223,23 @@ def ctl_request(spec, rec):
                     elif pre["generations"] >= 1:
                         own = 1
                 dS = own
+            if solver == "DE2" and ran and len(rec.trials) and dE != (sn["n_cost_calls"] - pre["n_cost_calls"]):
+                # DE2 re-reads its counter from len(evaluation monitor) (or counts finite energies without one): the
+                # counter is an observation of the monitor, not an accumulation (known findings F21 / F21b)
+                ops.append("(setevals %d)" % max(0, sn["evaluations"] - (sn["n_cost_calls"] - pre["n_cost_calls"]))); expect.append(None)
+                dE = sn["n_cost_calls"] - pre["n_cost_calls"]
             ops.append("(step %s %s %d %d %d)" % ("true" if tpre else "false", "true" if tpost else "false", max(dE, 0), max(dG, 0), max(dS, 0)))
             expect.append(("step", msg_kind(sn["ret"]), ran, sn["generations"], sn["evaluations"], sn["n_stepmon"], sn["maxiter"], sn["maxfun"], sn["live"]))
         elif k == "setlimits":
             ops.append("(limits %s %s %s)" % (lim_str(op[1]), lim_str(op[2]), "true" if op[3] else "false"))
             expect.append(("limits", sn["maxiter"], sn["maxfun"]))
+        elif k == "setstepmon":
+            ops.append("(stepmon %s)" % ("true" if op[1] else "false")); expect.append(("stepmon", sn["generations"], sn["n_stepmon"]))
         elif k == "earlyexit":
             ops.append("(exit true)"); expect.append(None)
         elif k == "clearexit":
             ops.append("(exit false)"); expect.append(None)
-        elif k == "finalize" or (k in ("setpenalty", "setconstraints", "setranges") and not (k == "setconstraints" and solver in ("DE", "DE2"))):
+        elif k == "finalize" or (k in ("setpenalty", "setconstraints", "setranges", "setevalmon") and not (k == "setconstraints" and solver in ("DE", "DE2"))):
             ops.append("(finalize)"); expect.append(("finalize", sn["generations"], sn["n_stepmon"], sn["live"]))
         else:
             prev = sn; prev_maxiter = sn["maxiter"]
@@ -269,6 +280,11 @@ def ctl_request(spec, rec):
                     diffs.append("live model=%s impl=%s" % (mlive, live))
                 if diffs:
                     out.append(("%s/control-diverges" % solver, "op %d %s: %s" % (j, ops[j], "; ".join(diffs))))
+                    break
+            elif e[0] == "stepmon":
+                mg, mns = int(m[1][1:]), int(m[2][1:])
+                if (mg, mns) != (e[1], e[2]):
+                    out.append(("%s/control-diverges" % solver, "op %d %s: after SetGenerationMonitor model=(gens %d, records %d) impl=(%d, %d)" % (j, ops[j], mg, mns, e[1], e[2])))
                     break
             elif e[0] == "finalize":
                 mg, mns, mlive = int(m[1][1:]), int(m[2][1:]), m[3] == "true"
